@@ -68,11 +68,8 @@ template <typename N> inline void reg_conv16(Units& q) {
   }
 }
 
-template <typename T> inline void i8_register(Units& q, Units& t) {
-  typedef Checked_Number<T, PX> NX; typedef Checked_Number<T, PW> NW; typedef Checked_Number<T, PB> NB;
-  reg_kind<NX>(q, t); reg_kind<NW>(q, t); reg_kind<NB>(q, t); reg_kind<T>(q, t);
-  reg_conv<NX>(q); reg_conv<NB>(q); reg_conv<T>(q);
-  reg_conv16<NX>(q); reg_conv16<NB>(q); reg_conv16<T>(q);
+template <typename T> inline void reg_bounded(Units& q) {
+  typedef Checked_Number<T, PB> NB;
   for (unsigned c = 0; c < 16; ++c)
     q.push_back(Unit{ std::string("bounded throwing interface <") + kname<NB>() + "> x in raw[" + std::to_string(16 * c) + "," + std::to_string(16 * c + 15) + "] y in raw[0,255]",
                       [c]() { BoundedMon<T>::run(range8<NB>(16 * c, 16 * c + 15), range8<NB>(0, 255), accs8<NB>(false)); } });
